@@ -86,7 +86,9 @@ def tsan_reports(stderr):
                         fn = _short_fn(fm.group(1))
                         break
                 acc.append("%s-in:%s" % (w, fn or "?"))
-            klass = "|".join(sorted(set(acc))) or kind
+            # key: the function(s) performing the WRITE (stable across schedules); the reading side only when no write stack survived
+            wr = sorted(set(a for a in acc if a.startswith("write-in:") and not a.endswith(":?")))
+            klass = "|".join(wr or sorted(set(acc))) or kind
             excl = any(k in rep for k in ALLOCATOR_MARKS)
             out.append((cur, "%s:%s" % (f, line), klass, excl, rep[:3000], kind))
     return out
